@@ -167,6 +167,9 @@ func describeD(v ssa.Value, d int) string {
 		if x.Call.IsInvoke() {
 			return describeD(x.Call.Value, d+1) + "." + x.Call.Method.Name() + "(" + strings.Join(as, ", ") + ")"
 		}
+		if name == "dynamic" {
+			return describeD(x.Call.Value, d+1) + "(" + strings.Join(as, ", ") + ")"
+		}
 		return name + "(" + strings.Join(as, ", ") + ")"
 	case *ssa.Extract:
 		return describeD(x.Tuple, d+1) + "#" + fmt.Sprint(x.Index)
@@ -1026,4 +1029,94 @@ func (ci *cdInfo) guardOfM(b *ssa.BasicBlock, memo map[*ssa.BasicBlock]*Form, on
 	}
 	memo[b] = f
 	return f
+}
+
+// ---------- conditionality helpers ----------
+
+// cdChain returns the transitive control-dependence parents of b (excluding loop-carried ones).
+func cdChain(cd *cdInfo, b *ssa.BasicBlock) []cdEdge {
+	var out []cdEdge
+	seen := map[*ssa.BasicBlock]bool{b: true}
+	work := []*ssa.BasicBlock{b}
+	for len(work) > 0 {
+		x := work[len(work)-1]
+		work = work[:len(work)-1]
+		for _, d := range cd.cd[x] {
+			if d.b == x || x.Dominates(d.b) {
+				continue
+			}
+			out = append(out, d)
+			if !seen[d.b] {
+				seen[d.b] = true
+				work = append(work, d.b)
+			}
+		}
+	}
+	return out
+}
+
+// isLoopHeader: b has a predecessor that b dominates (a back edge enters it).
+func isLoopHeader(b *ssa.BasicBlock) bool {
+	for _, p := range b.Preds {
+		if b.Dominates(p) {
+			return true
+		}
+	}
+	return false
+}
+
+// isErrCheck: the If tests an error-typed value against nil and the non-nil edge leads straight to a return.
+func isErrCheck(iff *ssa.If) bool {
+	bo, ok := iff.Cond.(*ssa.BinOp)
+	if !ok || (bo.Op != token.NEQ && bo.Op != token.EQL) {
+		return false
+	}
+	if !isNilConst(bo.Y) || bo.X.Type().String() != "error" {
+		return false
+	}
+	idx := 0
+	if bo.Op == token.EQL {
+		idx = 1
+	}
+	return leadsToReturn(iff.Block().Succs[idx], 3)
+}
+
+func leadsToReturn(b *ssa.BasicBlock, depth int) bool {
+	if isExitBlock(b) {
+		return true
+	}
+	if depth == 0 || len(b.Succs) != 1 {
+		return false
+	}
+	return leadsToReturn(b.Succs[0], depth-1)
+}
+
+// extraConds lists the branch conditions b depends on that are neither loop
+// headers nor error checks (i.e. genuine data/config conditions).
+func extraConds(cd *cdInfo, b *ssa.BasicBlock) []string {
+	var out []string
+	seen := map[string]bool{}
+	for _, d := range cdChain(cd, b) {
+		iff := blockIf(d.b)
+		if iff == nil {
+			continue
+		}
+		if isLoopHeader(d.b) || isErrCheck(iff) {
+			continue
+		}
+		// early exit: the edge not taken towards b leaves the function
+		if leadsToReturn(d.b.Succs[1-d.succ], 3) {
+			continue
+		}
+		a, neg := condLit(iff.Cond)
+		if neg != (d.succ == 1) {
+			a = "¬(" + a + ")"
+		}
+		if !seen[a] {
+			seen[a] = true
+			out = append(out, a)
+		}
+	}
+	sort.Strings(out)
+	return out
 }
